@@ -98,10 +98,12 @@ func (s *DiskKeyIndex) binarySearch(target []byte) (uint64, *proto.IndexEntry, b
 		// i ≤ h < j
 		at, err := s.findAt(h)
 		if err != nil {
-			if errors.Is(err, io.EOF) {
-				return n, nil, false, nil
+			if !errors.Is(err, io.EOF) {
+				return 0, nil, false, err
 			}
-			return 0, nil, false, err
+			// no entry starts at or behind h (it points into the last entry): that counts as greater than the target
+			j = h
+			continue
 		}
 		if bytes.Compare(at.Key, target) < 0 {
 			i = h + 1 // preserves cmp(x[i - 1], target) < 0
@@ -127,11 +129,15 @@ func (s *DiskKeyIndex) findAt(off uint64) (*proto.IndexEntry, error) {
 
 	record := &proto.IndexEntry{}
 	_, _, err := s.reader.SeekNext(record, off)
+	if err != nil {
+		return nil, err
+	}
+
 	if len(s.offsetCache) < s.offsetCacheMaxSize {
 		s.offsetCache[off] = record
 	}
 
-	return record, err
+	return record, nil
 }
 
 func (s *DiskKeyIndex) newIterator(offset, endOffset uint64) *DiskKeyIndexIterator {
